@@ -178,6 +178,9 @@ func (dpq *DelayedPriorityQueue) processQueueItems() {
 		case req.doneCh <- struct{}{}:
 			close(req.doneCh)
 			dpq.currentWindowCounter++
+			if verifhook.Enabled {
+				verifhook.Emit("dpq.released", req.ID)
+			}
 			dpq.cl.Logger.Trace().Str("requestID", req.ID).
 				Msgf("notified successful request processing to req.doneCh")
 		default:
